@@ -4,6 +4,7 @@ import (
 	"bytes"
 	"fmt"
 	"sort"
+	"sync"
 
 	"github.com/gcash/bchd/chaincfg/chainhash"
 	"github.com/gcash/bchd/txscript"
@@ -261,7 +262,42 @@ var c10plainOps = []byte{txscript.OP_DUP, txscript.OP_HASH160, txscript.OP_EQUAL
 // c10pkScript draws an output script; the returned name is its generator
 // class (for coverage only — the oracle asks txscript).
 func c10pkScript(r *vf.Rand, p *c10pool) ([]byte, string) {
-	switch r.Intn(22) {
+	switch r.Intn(24) {
+	case 22: // large bare multisig (up to 16 keys, mostly uncompressed, up to ~1.1 kB), pushes in minimal and non-minimal forms
+		n := r.Range(4, 16)
+		if r.Chance(1, 3) {
+			n = 16
+		}
+		m := r.Range(1, n)
+		s := []byte{txscript.OP_1 - 1 + byte(m)}
+		nonMinimal := r.Intn(3) // 0: all minimal, 1: one key, 2: random
+		odd := r.Intn(n)
+		own := r.Intn(n)
+		for i := 0; i < n; i++ {
+			var k []byte
+			switch {
+			case i == own:
+				k = p.key(r)
+			case r.Chance(1, 5):
+				k = append([]byte{2 + byte(r.Intn(2))}, r.Bytes(32)...)
+			default:
+				k = append([]byte{4}, r.Bytes(64)...)
+			}
+			form := 0
+			if (nonMinimal == 1 && i == odd) || (nonMinimal == 2 && r.Chance(1, 3)) {
+				form = 1 + r.Intn(3)
+			}
+			s = append(s, c10rawPush(k, form)...)
+		}
+		return append(s, txscript.OP_1-1+byte(n), txscript.OP_CHECKMULTISIG), "multisig-large"
+	case 23: // P2PK / small multisig whose key pushes use OP_PUSHDATA1/2/4
+		if r.Bool() {
+			return append(c10rawPush(p.key(r), 1+r.Intn(3)), txscript.OP_CHECKSIG), "p2pk-nonminimal-push"
+		}
+		s := []byte{txscript.OP_1}
+		s = append(s, c10rawPush(p.key(r), r.Intn(4))...)
+		s = append(s, c10rawPush(p.key(r), 1+r.Intn(3))...)
+		return append(s, txscript.OP_2, txscript.OP_CHECKMULTISIG), "multisig-nonminimal-push"
 	case 0, 1, 2: // P2PK
 		return c10build(txscript.NewScriptBuilder().AddData(p.key(r)).AddOp(txscript.OP_CHECKSIG)), "p2pk"
 	case 3, 4, 5, 6: // P2PKH
@@ -1120,6 +1156,30 @@ func c10blockCase(c *vf.Ctx, i int) {
 		}},
 	}
 
+	c10hookOnce.Do(func() {
+		bloom.VerifSetAddHook(func(f *bloom.Filter, data []byte) {
+			if v, ok := c10recorders.Load(f); ok {
+				rc := v.(*c10rec)
+				rc.items = append(rc.items, append([]byte(nil), data...))
+			}
+		})
+	})
+	outIndex := map[string][2]int{}
+	spenders := map[string][]int{}
+	for t, x := range txs {
+		for j := range x.msg.TxOut {
+			outIndex[string(ref.OutPointBytes(x.txid, uint32(j)))] = [2]int{t, j}
+		}
+	}
+	for t, x := range txs {
+		seen := map[string]bool{}
+		for _, pv := range x.inPrev {
+			if _, ok := outIndex[string(pv)]; ok && !seen[string(pv)] {
+				seen[string(pv)] = true
+				spenders[string(pv)] = append(spenders[string(pv)], t)
+			}
+		}
+	}
 	allThree := r.Intn(len(orders))
 	for oi, o := range orders {
 		mb := wire.NewMsgBlock(&hdr)
@@ -1145,7 +1205,11 @@ func c10blockCase(c *vf.Ctx, i int) {
 			if !c.Call("NewBlock", in, func() { blk = bchutil.NewBlock(mb) }) {
 				return
 			}
-			if !c.Call(api.name, in, func() { rep = api.run(blk, f) }) {
+			rec := &c10rec{}
+			c10recorders.Store(f, rec)
+			ok := c.Call(api.name, in, func() { rep = api.run(blk, f) })
+			c10recorders.Delete(f)
+			if !ok {
 				return
 			}
 			sort.Ints(rep)
@@ -1202,6 +1266,46 @@ func c10blockCase(c *vf.Ctx, i int) {
 					break
 				}
 			}
+			// what the scan inserted (hook bloom.VerifSetAddHook): only outpoints of
+			// block outputs the filter matches, as the flag prescribes, and every
+			// transaction of the block that spends one of them is reported
+			posOf := make([]int, n)
+			for pos, t := range o.perm {
+				posOf[t] = pos
+			}
+			c.Count("items_inserted_during_scans", int64(len(rec.items)))
+			for _, it := range rec.items {
+				c.Evals(1)
+				tj, isOut := outIndex[string(it)]
+				switch {
+				case flag == wire.BloomUpdateNone:
+					c.Failf(api.name+"/inserted-under-flag-none", "the scan inserted %x into a filter loaded with BloomUpdateNone; %s", it, describe(o))
+				case !isOut:
+					c.Failf(api.name+"/inserted-foreign-item", "the scan inserted %x, which is not the outpoint of an output of a transaction of the block; %s", it, describe(o))
+				case !c10flagAllows(flag, txs[tj[0]], tj[1]):
+					c.Failf(api.name+"/inserted-outpoint-against-flag", "the scan inserted outpoint %x:%d although flag %s does not prescribe an update for that output (script %x); %s", txs[tj[0]].txid, tj[1], c10flagName(flag), txs[tj[0]].msg.TxOut[tj[1]].PkScript, describe(o))
+				default:
+					matched := false
+					for _, d := range txs[tj[0]].outPushes[tj[1]] {
+						if final.Contains(d) {
+							matched = true
+						}
+					}
+					if !matched {
+						c.Failf(api.name+"/inserted-outpoint-of-unmatched-output", "the scan inserted outpoint %x:%d although the final filter matches no data push of that output (script %x); %s", txs[tj[0]].txid, tj[1], txs[tj[0]].msg.TxOut[tj[1]].PkScript, describe(o))
+					}
+					if !S[string(it)] {
+						c.Inc("outpoints_inserted_through_a_bloom_false_positive")
+					}
+					for _, v := range spenders[string(it)] {
+						c.Inc("in_block_spenders_of_inserted_outpoints")
+						if !repSet[posOf[v]] {
+							c.Failf(api.name+"/spender-of-inserted-outpoint-missed", "the scan inserted outpoint %x:%d into the filter (its output became relevant) but the transaction at position %d (txid %x), which spends it, was not reported (reported positions %v); final filter=%s; %s; spender=%s",
+								txs[tj[0]].txid, tj[1], posOf[v], txs[v].txid, rep, c10bitsHex(after.Filter), describe(o), c10txHex(txs[v].msg))
+						}
+					}
+				}
+			}
 			if first == nil {
 				first = rep
 				if first == nil {
@@ -1239,6 +1343,15 @@ func c10blockCase(c *vf.Ctx, i int) {
 			"relevant_exact": nE, "only_via_inserted_outpoints": viaInsertedOutpoint, "path_bound": pathTotal, "fixpoint_rounds": rounds})
 	}
 }
+
+// c10rec collects what one filter inserted while it was registered (hook
+// bloom.VerifSetAddHook, called with the filter lock held).
+type c10rec struct{ items [][]byte }
+
+var (
+	c10recorders sync.Map // *bloom.Filter -> *c10rec
+	c10hookOnce  sync.Once
+)
 
 func c10parents(txs []*c10tx, perm []int, es []c10edge) string {
 	posOf := map[int]int{}
@@ -1289,9 +1402,9 @@ func init() {
 	register(&vf.Property{
 		ID:    "C10",
 		Title: "Transaction filtering finds every relevant transaction, in any block order",
-		Rule: "stream tx: 1..4 seeded transactions (inputs: coinbase / external / outputs of earlier ones; output scripts: P2PK 33/65, P2PKH, P2SH, P2SH32, bare multisig, near-miss P2PK/multisig, OP_RETURN pushes, non-minimal and empty pushes, OP_0, non-standard, unparsable, empty, random bytes; input scripts likewise) " +
+		Rule: "stream tx: 1..4 seeded transactions (inputs: coinbase / external / outputs of earlier ones; output scripts: P2PK 33/65, P2PKH, P2SH, P2SH32, bare multisig up to 16 keys (about 1.1 kB) with minimal and OP_PUSHDATA1/2/4 key pushes, near-miss P2PK/multisig, OP_RETURN pushes, non-minimal and empty pushes, OP_0, non-standard, unparsable, empty, random bytes; input scripts likewise) " +
 			"fed (some twice, in seeded order) to one filter (1..36000 bytes, 0..50 hash functions, flag NONE/ALL/P2PUBKEY_ONLY, loaded from a model into which a seeded subset of the transactions' ids, pushes, spent and own outpoints was inserted; sometimes stray bits or unloaded); after each call result == model and filter bytes == model. " +
-			"stream block: blocks of 1..40 transactions over a key pool, spend graphs chain/fan/diamond/forest/random with path bound <= 10^4, a wallet of 1..3 keys, filter 8..36000 bytes; each block scanned in topological, reverse, CTOR, reverse-after-coinbase and 4 (thorough 5) seeded random orders by three APIs from a fresh copy of the same filter; E ⊆ reported ⊆ matches(final), reported sets equal. " +
+			"stream block: blocks of 1..40 transactions over a key pool, spend graphs chain/fan/diamond/forest/random with path bound <= 10^4, a wallet of 1..3 keys, filter 8..36000 bytes; each block scanned in topological, reverse, CTOR, reverse-after-coinbase and 4 (thorough 5) seeded random orders by three APIs from a fresh copy of the same filter; E ⊆ reported ⊆ matches(final), reported sets equal; every item the scan inserts is observed through the hook bloom.VerifSetAddHook and must be the outpoint of a block output whose push the filter matches and for which the flag prescribes an update (none under NONE), and every transaction of the block spending an inserted outpoint must be reported (this covers relevance that arises through bloom false positives during the scan). " +
 			"A case is non-trivial and distinct per (filter shape, transaction ids).",
 		Assumptions: []string{
 			"txscript.PushedData defines 'data push' (unparsable script: none; OP_0 and zero-length PUSHDATA: the empty string) and txscript.GetScriptClass defines pay-to-pubkey / multisig",
